@@ -1366,3 +1366,33 @@ def floattext(repo):
     res.samples = [f"precisions {precs}, buffer {n} >= {need}"]
     res.analysed = [FILE]
     return res
+
+
+def storageiface(facts: CppFacts, templates: Templates):
+    """R-STORAGEIFACE (C20/C07): the view class generated for every structure -- `struct` and `bits` alike -- forwards to
+    its storage (`backing_.<Method>(...)` in the structure_view_class template).  The storage of a struct view is a
+    ContiguousBuffer, the storage of a bits view a BitBlock or an OffsetBitBlock, so all three classes must declare every
+    method the template calls on `backing_` (`SizeIn${units}` counts as SizeInBytes for the byte storage and SizeInBits
+    for the bit storages).  A method missing from the bit storages compiles until someone calls it on a bits view."""
+    res = RuleResult("R-STORAGEIFACE")
+    sv = templates["structure_view_class"]["text"] if "structure_view_class" in templates else None
+    if sv is None:
+        raise AnalysisError("template structure_view_class vanished")
+    called = sorted(set(re.findall(r"backing_\s*\.\s*(?:template\s+)?([A-Za-z_]\w*)", sv)))
+    if len(called) < 3:
+        raise AnalysisError(f"structure_view_class: only {called} called on backing_")
+    storages = {"ContiguousBuffer": "SizeInBytes", "BitBlock": "SizeInBits", "OffsetBitBlock": "SizeInBits"}
+    for cls, sizer in storages.items():
+        have = {m.name for m in facts.by_class(cls)}
+        if not have:
+            raise AnalysisError(f"runtime class {cls} not found")
+        for name in called:
+            want = sizer if name == "SizeIn" else name
+            res.instances += 1
+            if want not in have:
+                res.add(f"runtime/cpp/emboss_memory_util.h|{cls}|{want}", f"generated structure views call `backing_.{want}(...)`, but {cls} "
+                        f"(the storage of {'struct' if cls == 'ContiguousBuffer' else 'bits'} views) has no such method: the call does not "
+                        "compile for those views", "runtime/cpp/emboss_memory_util.h", 0, cls)
+    res.samples = [f"called on backing_: {called}"]
+    res.analysed = [TEMPLATES, "runtime/cpp/emboss_memory_util.h"]
+    return res
